@@ -251,6 +251,22 @@ class is_flag_active_visitor<Flag, flag_and>""")]),
             {
                 const generic_cell cell = *it;
                 result |= reinterpret_cast<cell_t>(cell)(sm, region_id, event);""")]),
+ dict(name='policysel-mp11-table-default-policy', prop='C19', rule='C19.select', edits=[(MPT, """        boost::mp11::mp_eval_or<active_state_switch_after_entry,
+                                get_active_state_switch_policy, front_end_t>;""", """        boost::mp11::mp_eval_or<active_state_switch_after_entry,
+                                get_active_state_switch_policy, void>;""")]),
+ dict(name='visitmode-mp11-exit-recursive', prop='C02', rule='C02.visit-mode', edits=[(MP, """        // First exit the substates.
+        visit<visit_mode::active_non_recursive>(""", """        // First exit the substates.
+        visit<visit_mode::active_recursive>(""")]),
+ dict(name='rownames-a_irow-external-tag', prop='C14', rule='C14.rows', edits=[('include/boost/msm/front/state_machine_def.hpp', """        typedef a_irow_tag row_type_tag;""", """        typedef a_row_tag row_type_tag;""")]),
+ dict(name='serialize-back-states-as-binary-object', prop='C16', rule='C16.fields', edits=[(B, """        ar & m_states;""", """        ar & ::boost::serialization::make_binary_object(m_states, nr_regions::value);"""), (B, "#include <boost/serialization/base_object.hpp>", "#include <boost/serialization/base_object.hpp>\n#include <boost/serialization/binary_object.hpp>")]),
+ dict(name='target-back-kleene-defer-probe', prop='C05', rule='C04.target', edits=[(B, """boost::any_cast<Event>(m_event)""", """ev""")]),
+ dict(name='explicit-mp11-no-history-skip', prop='C09', rule='C09.entry', edits=[(MP, """        if constexpr (!all_regions_defined)
+        {
+            m_history.on_entry(self(), event);
+        }""", """        if constexpr (!all_regions_defined && !std::is_same_v<typename front_end_t::history, front::no_history>)
+        {
+            m_history.on_entry(self(), event);
+        }""")]),
  # ---- behaviour-preserving edits: the checks must stay silent
  dict(name='refactor-rename-local', prop='C02', refactor=True, edits=[(B, """            HandledEnum res = ROW::action_call(fsm,evt,
                              ::boost::fusion::at_key<current_state_type>(fsm.m_substate_list),
